@@ -63,7 +63,11 @@ func c07Exec(c *Sexp) (out Outcome) {
 
 // c07Template: a memoized parser with 3-7 alternatives (spare capacity in its list) consumed by several
 // list-extending consumers (Optional, Any) at one position, with or without left recursion
-func c07Template(rng *rand.Rand) *Sexp {
+func c07Template(rng *rand.Rand) *Sexp { return c07TemplateLR(rng, true) }
+
+// c07TemplateLR: the same family; with leftRec = false it is left-recursion-free (used by C03: the list handed out
+// on a cache hit must be the list the un-memoized grammar computes, whoever extended an earlier copy of it)
+func c07TemplateLR(rng *rand.Rand, leftRec bool) *Sexp {
 	al := []byte("ab")
 	t := func() *Sexp { return runeT(al[rng.Intn(2)]) }
 	nAlt := 3 + rng.Intn(5)
@@ -76,7 +80,7 @@ func c07Template(rng *rand.Rand) *Sexp {
 			alts = append(alts, t())
 		}
 	}
-	if rng.Intn(2) == 0 {
+	if leftRec && rng.Intn(2) == 0 {
 		alts = append(alts, LA("seq", A("of"), noOpts, LA("ref", N(1)), t())) // left recursion through S
 	}
 	m := LA("memo", N(0), LA("any", alts...))
